@@ -282,3 +282,89 @@ def subgraph_windows_guarded(prog: Program, rep, RID: str) -> int:
     if n == 0:
         raise AnalysisError("subgraph scanning: construction of the per-window MinFlowDecomp not found")
     return n
+
+
+# ---------------------------------------------------------------------------------------------------------------------------
+# fixed-width arithmetic on the caller's scalars
+# ---------------------------------------------------------------------------------------------------------------------------
+
+_CONVERTERS = {"float", "int", "round", "math.ceil", "math.floor", "Fraction", "fractions.Fraction"}
+
+
+def _is_caller_scalar_read(n: ast.AST, extra_names=()) -> bool:
+    if isinstance(n, ast.Subscript) and isinstance(n.ctx, ast.Load):
+        s = norm(n.slice)
+        return "flow_attr" in s or s in ("upperbound_attr", "lowerbound_attr")
+    if isinstance(n, ast.Call) and isinstance(n.func, ast.Attribute) and n.func.attr == "get" and n.args and "flow_attr" in norm(n.args[0]):
+        return True
+    return norm(n) in extra_names
+
+
+def python_arithmetic(prog: Program, rep, RID: str, funcs, why: str) -> int:
+    """funcs: FuncInfo list.  Inside them, a value read from the caller's graph (`data[flow_attr]`, `.get(flow_attr, ...)`, or an attribute that
+    holds the maximum of such reads) takes part in +, -, *, += or sum() only after it became a Python number (float() / int() / round() /
+    weight_type() / .item()): fixed-width numpy integers wrap around silently (np.uint8 200 + 100 = 44, np.uint32 6 - 10 = 4294967292).
+    A raw operand is accepted in the else-branch of `int(x) if isinstance(x, numbers.Integral) else x` (floats do not wrap)."""
+    n = 0
+    for f in funcs:
+        par = {}
+        for a in ast.walk(f.node):
+            for c in ast.iter_child_nodes(a):
+                par[id(c)] = a
+        # attributes / locals holding max() / min() of raw reads
+        derived = set()
+        cls_nodes = [f.node]
+        if f.cls is not None and "__init__" in f.cls.methods:
+            cls_nodes.append(f.cls.methods["__init__"].node)
+        for root in cls_nodes:
+            for st in ast.walk(root):
+                if isinstance(st, ast.Assign) and isinstance(st.value, ast.Call) and dotted(st.value.func) in ("max", "min") and \
+                        any(_is_caller_scalar_read(x) for x in ast.walk(st.value)) and not any(isinstance(x, ast.Call) and (dotted(x.func) or "") in _CONVERTERS | {"self.weight_type"}
+                                                                                               for x in ast.walk(st.value) if x is not st.value):
+                    derived.add(norm(st.targets[0]))
+        for node in ast.walk(f.node):
+            if not _is_caller_scalar_read(node, derived):
+                continue
+            if norm(node) in derived and isinstance(par.get(id(node)), ast.Assign) and node in par[id(node)].targets:
+                continue
+            cur, kind, arith = node, None, None
+            while id(cur) in par:
+                p = par[id(cur)]
+                if isinstance(p, ast.Call) and ((dotted(p.func) or "") in _CONVERTERS or (isinstance(p.func, ast.Attribute) and p.func.attr in ("weight_type", "item", "is_integer"))
+                                                or (dotted(p.func) or "") in ("isinstance", "hasattr", "math.isfinite", "math.isnan", "math.isclose")):
+                    kind = "converted"
+                    break
+                if isinstance(p, ast.Attribute) and p.attr == "item" and cur is p.value:
+                    kind = "converted"
+                    break
+                if isinstance(p, ast.IfExp) and cur is p.orelse and "isinstance" in norm(p.test) and "Integral" in norm(p.test) and norm(node) in norm(p.test):
+                    cur = p
+                    continue      # non-integral values: keep climbing (floats do not wrap), but remember nothing
+                if isinstance(p, ast.IfExp) and cur is p.test:
+                    kind = "test"
+                    break
+                if isinstance(p, ast.BinOp) and isinstance(p.op, (ast.Add, ast.Sub, ast.Mult)):
+                    guarded = isinstance(cur, ast.IfExp) and "Integral" in norm(cur.test)
+                    kind, arith = ("converted" if guarded else "raw"), p
+                    break
+                if isinstance(p, ast.AugAssign) and cur is p.value and isinstance(p.op, (ast.Add, ast.Sub, ast.Mult)):
+                    guarded = isinstance(cur, ast.IfExp) and "Integral" in norm(cur.test)
+                    kind, arith = ("converted" if guarded else "raw"), p
+                    break
+                if isinstance(p, ast.Call) and dotted(p.func) == "sum":
+                    kind, arith = "raw", p
+                    break
+                if isinstance(p, (ast.GeneratorExp, ast.ListComp)) and cur is p.elt:
+                    cur = p
+                    continue
+                if isinstance(p, (ast.stmt, ast.Compare, ast.Subscript, ast.Dict, ast.Tuple, ast.keyword, ast.Call, ast.comprehension)):
+                    break
+                cur = p
+            if kind == "raw":
+                n += 1
+                rep.violation(RID, f"{f.qualname}:python-numbers:{norm(arith)[:50]}", f"`{norm(arith)[:100]}` computes with the caller's scalar `{norm(node)}` as it comes: "
+                              f"a fixed-width numpy integer wraps around silently (np.uint8 200 + 100 = 44, np.uint32 6 - 10 = 4294967292) - {why}", f.loc(arith))
+            elif kind == "converted":
+                n += 1
+                rep.ok(RID, f"{f.qualname}:python-numbers", f"`{norm(node)}` takes part in arithmetic as a Python number", f.loc(node))
+    return n
